@@ -103,7 +103,7 @@ func twinHistories(c *Ctx, prop string, fsets []Flags) {
 				for _, can := range s.Secrets {
 					if strings.Contains(o, can) {
 						c.Violate("leak:twin-line:"+s.Name, fmt.Sprintf("the line %s on its own, flags [%s]: the literal %s survives: %s", s.Name, fl, can, trunc(o, 400)), 0,
-							map[string]any{"kind": "line", "line": s.Text, "flags": fl.String()}, nil)
+							map[string]any{"kind": "redact-line", "input": s.Text, "flags": fl.String(), "output": o}, nil)
 					}
 				}
 			}
